@@ -207,3 +207,54 @@ KCOMP = Harness(
     stubs=STUBS_COMMON,
 )
 HARNESSES.append(KCOMP)
+
+
+# ------------------------------------------------------------------------------ G-addrace / T-alias (shared scenarios, C02's clauses)
+from . import c03 as _c03  # noqa: E402
+
+
+@guard
+def addrace_fn(a, tier):
+    res = _c03._addrace(a, tier, "C02")
+    if res.ok or res.sig.startswith(("addrace:child", "addrace:static-not-returned", "addrace:raised", "unexpected-exception")):
+        return res
+    return OK(res.summary, nontrivial=False)  # identity over time is C03's / C04's clause
+
+
+ADDRACE = Harness(
+    prop="C02",
+    name="G-addrace",
+    fn=addrace_fn,
+    params=_c03.addrace_params,
+    cube=lambda tier: 3,
+    title="a static resource added while an async multi-type generation is in flight is part of the snapshot a later child takes",
+    bound_text=_c03.ADDRACE.bound_text,
+    oracle="a successfully added static resource is what the context's lookups return and what a child created afterwards inherits "
+    "(get_resources and get_resource_nowait in the child agree)",
+    outside="more tasks; factories that raise",
+    stubs=STUBS_COMMON,
+)
+
+
+@guard
+def alias_fn(a, tier):
+    res = _c03.alias_fn(a, tier)
+    if res.ok or res.sig.startswith(("alias:get_resources-disagrees", "alias:pairwise-lookups-differ", "alias:raised", "unexpected-exception")):
+        return res
+    return OK(res.summary, nontrivial=False)
+
+
+ALIAS = Harness(
+    prop="C02",
+    name="T-alias",
+    fn=alias_fn,
+    params=_c03.alias_params,
+    cube=lambda tier: 0,
+    title="lookup paths agree when the resource type is a parameterised generic or a union (equal but distinct alias objects)",
+    bound_text=_c03.ALIAS.bound_text,
+    oracle="get_resource, get_resource_nowait and get_resources, each given a freshly evaluated alias, return the same registered object in the "
+    "owning context and in a child that inherited it",
+    outside="-",
+    stubs=STUBS_COMMON,
+)
+HARNESSES += [ADDRACE, ALIAS]
